@@ -113,6 +113,19 @@ def streams(ctx):
             for delta in (-120, -60, 0, 60, 180):
                 again.append((zone, float(day0 - off + sm * 60 + delta), "%02d:%02d" % divmod(sm, 60), ds))
     ctx.run_cases(NEXT, "same-schedule-before-at-and-after-its-start", again, exhaustive=False, sample_every=53)
+    # the weeks in which a zone changes its clocks: days of 23 and 25 hours lie between "now" and the next run; starts close to midnight
+    dst = []
+    for zone in [z for z in ZONES if Z.transitions_near(z)][:6]:
+        for t in Z.transitions_near(zone)[:4]:
+            for back in range(0, 7):
+                for hour_min in (5, 30, 719, 1410, 1435):
+                    now = t - back * 86400 + rng.choice([-7200, 3600, 40000])
+                    lt = _local(zone, now)
+                    for ds in ([lt.weekday()], [(lt.weekday() + 1) % 7], [(lt.weekday() + 2) % 7, (lt.weekday() + 6) % 7], [(lt.weekday() + back + 1) % 7]):
+                        dst.append((zone, float(now), "%02d:%02d" % divmod(hour_min, 60), sorted(set(ds))))
+    if ctx.quick:
+        dst = rng.sample(dst, min(len(dst), 900))
+    ctx.run_cases(NEXT, "weeks-with-a-clock-change", dst, exhaustive=False, sample_every=211)
     bad = [("UTC", 1.75e9, s, [0]) for s in ("7:5", "24:00", "x", "", "12:60", "1200")]
     ctx.run_cases(NEXT, "malformed-start", bad, exhaustive=False)
 
